@@ -309,7 +309,8 @@ func (gen) Next(rng *rand.Rand, step int) core.Op {
 	val := func() int {
 		switch rng.Intn(3) {
 		case 0:
-			return []int{0, 1, 62, 63, 64, 65, 127, 128, 129, 191, 192, 4095, 4096}[rng.Intn(13)]
+			// word boundaries, and the boundaries of 16- and 17-bit positions (a bitmap of more than 1024 words)
+			return []int{0, 1, 62, 63, 64, 65, 127, 128, 129, 191, 192, 4095, 4096, 65535, 65536, 65537, 70000, 131071, 131072, 131135}[rng.Intn(20)]
 		case 1:
 			return rng.Intn(200)
 		}
